@@ -205,7 +205,7 @@ theorem liteapi_functions_covered :
 /- `steps_eq_schema` and `method_steps_eq_schema` (generic in the schema and in the extracted bindings) are stated in
 TongoProofs/C09.lean; here they are instantiated at the regenerated schema and the regenerated bindings. -/
 
-/-- regenerated obligation (75 kernel-decided obligations, one per type and per function of lite_api.tl): the bindings
+/-- regenerated obligation (72 kernel-decided obligations: 43 types + 29 functions of lite_api.tl): the bindings
 extracted from the current generated.go match the schema of the current lite_api.tl -/
 theorem liteapi_bindings_agree : Bind.agreeAll liteApi tlBindings = true := bindings_agree
 
